@@ -107,7 +107,7 @@ def stacksize(draw):
 def pushsize(draw):
     at = draw(at_)
     sv = draw(sv_)
-    way = draw(st.sampled_from(['pushdata2', 'pushdata4', 'unexecuted', 'initial-stack']))
+    way = draw(st.sampled_from(['pushdata2', 'pushdata4', 'unexecuted', 'initial-stack', 'successor-executed', 'successor-unexecuted', 'successor-unexecuted']))
     n = 520 + at
     flags = draw(base_flags) & ~F['CLEANSTACK'] & ~F['MINIMALDATA']
     data = bytes([draw(st.integers(1, 255))]) * n
@@ -118,6 +118,14 @@ def pushsize(draw):
         script = G.push(data, 4) + b'\x75\x51'
     elif way == 'unexecuted':
         script = b'\x00\x63' + G.push(data, 3) + b'\x68\x51'
+    elif way.startswith('successor'):
+        # the scripts of a spend (scriptSig / scriptPubKey) are not pre-validated when the session is set up: the limit must be enforced
+        # when the operation is decoded - also inside an unexecuted branch
+        inner = G.push(data, draw(st.sampled_from([3, 4])))
+        succ = (inner + b'\x75\x51') if way == 'successor-executed' else (b'\x00\x63' + inner + b'\x68\x51')
+        if draw(st.booleans()):
+            succ = b'\x61' * draw(st.integers(0, 5)) + succ
+        return dict(script=b'\x51\x75' * draw(st.integers(0, 2)) + b'\x61', stack=[], flags=flags, sv=R.BASE, succ=succ, limit='push', way=way, at=at)
     else:
         stack = [data]
         script = b'\x82\x75\x75\x51'
